@@ -410,8 +410,7 @@ def r6_current(ck, F):
 
 
 # ---------------------------------------------------------------------------------------
-def r7_seek_load(ck, F):
-    R = "C03-R7"
+def r7_seek_load(ck, F, R="C03-R7"):
     n = 0
     for b in F.user_bodies():
         for site, c, t in calls(b, A("block_new")):
